@@ -471,7 +471,8 @@ def run(ctx):
                 # every second multicast scenario draws flow arrows, whatever the random stream says (arrows between
                 # groups that are in flight together get their ids when the stages are drained: the order of that may
                 # not depend on the hash seed, and -I may not lose them); nothing may filter them out again
-                opts = [o for o in opts if o not in ("--flow",)]
+                # (--comm_summarize_seq merges the tagged parts the arrows are drawn between: not together with it)
+                opts = [o for o in opts if o not in ("--flow", "--comm_summarize_seq")]
                 if "-F" in opts:
                     i = opts.index("-F")
                     del opts[i:i + 2]
@@ -515,6 +516,7 @@ def run(ctx):
             if "," in s.meta.get("clog", ""):
                 dist["multi_log_scenarios"] += 1
             dist["summarized_multi_peer_slices"] += _multi_peer(base[2]) if "--comm_summarize_seq" in opts else 0
+            dist["exported_flow_arrows"] = dist.get("exported_flow_arrows", 0) + _arrows(base[2])
             if all(v[0] != 0 for v in res.values()):
                 # the run fails the same way in every variant: not a C14 matter (C02 owns exit codes)
                 dist["skipped_failing_scenarios"] = dist.get("skipped_failing_scenarios", 0) + 1
@@ -682,6 +684,15 @@ def run(ctx):
                   "mismatching": len(bad), "coq_seconds": round(secs, 1)}],
         "distribution": dist, "traces_validated_against_impl": len(terms),
     }
+
+
+def _arrows(cn):
+    """how many flow arrows (ph s) a run exported (coverage figure only)"""
+    n = 0
+    for fn, text in cn.items():
+        if fn.endswith(".json") and text.startswith("["):
+            n += sum(1 for e in json.loads(text) if isinstance(e, dict) and e.get("ph") == "s")
+    return n
 
 
 def _multi_peer(cn):
